@@ -296,6 +296,7 @@ func (ex *Exec) mapGet(st *State, m Val, key string) Val {
 		term := "(select " + st.read(name, "(Array "+ks+" "+so+")", m.T) + " " + key + ")"
 		v := ex.mkVal(t, term)
 		v.Origin = name
+		ex.chanClassLoad(st, name, t, term)
 		return v
 	}
 	return get(vt, "")
@@ -318,6 +319,7 @@ func (ex *Exec) mapSet(st *State, m Val, key string, v Val) {
 			so = "Int"
 		}
 		name := "Mval." + mk + suffix
+		ex.chanClassStore(st, name, t, v.T)
 		old := st.read(name, "(Array "+ks+" "+so+")", m.T)
 		st.write(name, "(Array "+ks+" "+so+")", m.T, "(store "+old+" "+key+" "+v.T+")")
 		if v.Fn != nil {
